@@ -68,6 +68,10 @@ class Unit:
                 while not L[j].startswith('//@end'):
                     spec.append(L[j])
                     j += 1
+                dn = [d.split('=')[0] for d in defs]
+                if (opts.get('ifdef') and opts['ifdef'] not in dn) or (opts.get('ifndef') and opts['ifndef'] in dn):
+                    i = j + 1
+                    continue
                 out.append(self._extract(opts, spec, defs, info))
                 i = j + 1
                 continue
